@@ -115,7 +115,7 @@ func run(b *harness.B) {
 		b.Sample(map[string]any{"kind": "corruption", "addresses_with_all_76_positions": b.Pick(100, 1000), "replacement_characters_per_position": 28})
 	case "values":
 		c := &checker{b: b, rng: b.SubRng("values")}
-		c.runValues(b.Pick(220, 4000))
+		c.runValues(b.Pick(220, 2000))
 		_ = idx
 	case "histories":
 		runHistories(b, idx)
@@ -124,7 +124,7 @@ func run(b *harness.B) {
 
 func main() {
 	harness.Main(harness.Spec{
-		ID: "C20",
+		ID:   "C20",
 		Rule: "registry of every public type with a text/JSON form (completeness checked against the source with go/parser). Values: valgen shapes (nil/empty/populated collections, extreme integers incl. 64-bit signature counts, currencies of every byte length incl. 2^128-1, all resolution kinds, every policy kind nested, sub-second and non-UTC times in years 0..9999) with unusual valid-UTF-8 specifiers and strings injected, plus the zero / all-maximal / all-empty / all-nil value of every type; every form (text, json, String()+Parse*). Policy strings additionally over isolated features (signature count around 2^8/2^32/2^64, each specifier class). Updates: chaingen histories over the five network families with reorgs plus an enumeration of the smallest shapes (g<=4 genesis outputs x spent subset x added outputs, apply then revert). Corruption: 76 positions x 28 replacement characters of address strings through 4 parsers, and ~160 length/prefix/alphabet/case corruptions per identifier syntax. distinct = (type, form, origin, structural shape of the value) / (update kind, family, leaf-count low bits, updated?, block kinds) / (form, corruption class) / (address parser, position).",
 		Assume: []string{
 			"domain as the property states: string fields valid UTF-8, timestamps within years 0..9999 (in their own location), interface fields (policy type, resolution) non-nil",
